@@ -33,7 +33,7 @@ pub fn run_engine(eg: &mut EGraph, sig: &Sig, cmds: &[Cmd]) -> Vec<Step> {
         let text = pgen::cmd_text(sig, c);
         let o = engine::run(eg, &text);
         let raw = engine::raw_dump(eg);
-        let defects = engine::dump_defects(&raw);
+        let defects = engine::dump_defects(&raw).or_else(|| engine::serialize_defects(eg, &raw).map(|d| format!("serialize vs read API: {d}")));
         out.push(Step { text, outcome: outcome_of(c, &o), dump: strip_rel(sig, engine::canon_dump(&raw)), defects, raw });
     }
     out
